@@ -107,7 +107,11 @@ func newSession() (*Session, error) {
 	if err != nil {
 		return nil, err
 	}
-	return &Session{L: L, DB: db, Prelude: string(pre), Sigs: ParsePreludeSigs(string(pre))}, nil
+	sigs := ParsePreludeSigs(string(pre))
+	for k, v := range ParsePreludeSigs(basePrelude) {
+		sigs[k] = v
+	}
+	return &Session{L: L, DB: db, Prelude: string(pre), Sigs: sigs}, nil
 }
 
 func (s *Session) verifyFunc(prop string, ct *Contract) *FuncReport {
